@@ -1,7 +1,7 @@
 """C12 -- query operations implement multi-dict algebra exactly."""
 from .common import run_model, run_progs
 
-FINISH = dict(rule="R1 MC_Query: 67,081 (existing query, argument) combinations, the multidict update algorithm (Level I) against "
+FINISH = dict(rule="R1 MC_Query: every (existing query of <= 4 pairs, argument of <= 3 pairs) combination over 3 keys x 2 values, the multidict update algorithm (Level I) against "
                    "the Level A algebra; R3 random existing queries x {str, mapping, MultiDict, pairs, tuple-pairs, kwargs, None} "
                    "x hostile keys/values x typed values (ints, floats incl. 1e16/nan/inf/-inf/-0.0, bools, None, bytes, lists) "
                    "on both back ends, arguments deep-copied before and compared after; TLC evaluates C12.gate / with_query / "
@@ -10,7 +10,11 @@ FIELDS = ["str", "val", "query", "raw_query_string"]
 
 
 def run(out, sc, tier, seed):
-    run_model(out, sc, "MC_Query", ["Inv_Update", "Inv_Extend", "Inv_With", "Inv_Without", "Inv_UpdateIdempotent"], label="MC_Query")
+    run_model(out, sc, "MC_Query", ["Inv_Update", "Inv_UpdateIntended", "Inv_Extend", "Inv_With", "Inv_Without", "Inv_UpdateIdempotent"],
+              label="MC_Query")
+    run_model(out, sc, "MC_Query", ["Inv_Update_NoExclusion"], label="MC_Query[negative: index shift not excluded]",
+              expect_violation="Inv_Update_NoExclusion",
+              what="non-vacuity: TLC finds multidict 6.2.0's drop-tails index shift (known finding) in Level I")
     out.exhaustive = True
     n = 12000 if tier == "quick" else 100000
     run_progs(out, sc, "C12", {"gen": "progs", "n": n, "seed": seed, "fields": FIELDS, "typed": True, "depths": [1, 2, 3],
